@@ -152,7 +152,7 @@ def worker(job):
 
 
 def judge(st, c, cwd, out, code, vehicle, dirs):
-    env, opts, ast, nvis, w = c01.reference(c, cwd)
+    env, opts, ast, nvis, w = c01.reference(c, cwd, c.get("roots", ("r",)))
     exp = refeval.expected_bytes(env.sinks.get("stdout", []))
     if w.out_of_domain or w.errors:
         st.inc("out_of_domain(link loop under a follow mode)")
@@ -167,7 +167,7 @@ def judge(st, c, cwd, out, code, vehicle, dirs):
         st.inc("runs_depth_first(" + str(c["df"]) + ")")
     # which directories were pruned in the reference run, and where among their siblings
     if not opts["depth_first"]:
-        full, _ = __import__("refwalk").walk_list(["r"], c.get("mode", "P"), opts["mindepth"], opts["maxdepth"], False, True, cwd)
+        full, _ = __import__("refwalk").walk_list(list(c.get("roots", ("r",))), c.get("mode", "P"), opts["mindepth"], opts["maxdepth"], False, True, cwd)
         visited = set(l for l in exp.decode("utf-8", "replace").replace("P:", "").replace("V:", "").split("\n") if l)
         allp = [e.path for e in full]
         cut = [p for p in allp if p not in visited]
@@ -185,7 +185,7 @@ def judge(st, c, cwd, out, code, vehicle, dirs):
         st.inc("runs_with_failing_execdir_plus_batches")
     if out != exp or code != want_code:
         st.violate("sequence-differs", None,
-                   {"args": ["find"] + c.get("lead", []) + ["r"] + c["toks"], "expected": exp[:700], "observed": out[:700], "exit": code, "expected_exit": want_code,
+                   {"args": ["find"] + c.get("lead", []) + list(c.get("roots", ("r",))) + c["toks"], "expected": exp[:700], "observed": out[:700], "exit": code, "expected_exit": want_code,
                     "vehicle": vehicle}, {"case": c})
     if st.c["evaluations"] % 151 == 1:
         st.sample({"args": ["find", "r"] + c["toks"], "sequence": out[:160]})
@@ -220,9 +220,13 @@ def xdev_worker(job):
                     continue
                 mounted.append(os.path.join(sb, mp))
                 mps.append(mp)
-                os.mkdir(os.path.join(sb, mp, "inner"))
-                for nm in ("f", "inner/g"):
+                os.makedirs(os.path.join(sb, mp, "inner", "deep"))
+                os.mkdir(os.path.join(sb, mp, "zdir"))
+                for nm in ("f", "inner/g", "inner/deep/h", "zdir/y", "~"):
                     open(os.path.join(sb, mp, nm), "w").close()
+                # a symbolic link on the sandbox's file system that leads to the root of the mounted one: as a followed starting
+                # point (-H / -L) its file system - the target's - is what -xdev confines the walk to
+                os.symlink(mp, os.path.join(sb, "lm%d" % i))
             if not mps:
                 common.force_rmtree(sb)
                 continue
@@ -236,7 +240,19 @@ def xdev_worker(job):
                     toks = toks[:1] + [rng.choice(["-xdev", "-xdev", "-mount"])] + toks[1:]
                 cases.append({"id": "x%d_%d_%d" % (k, t, i), "toks": toks, "files": [], "stratum": shape, "has_plus": False, "df": df, "tk": tk,
                               "mode": "P", "lead": [], "xdev": xd})
-            res = common.run_find_inproc([(c["id"], ["find", "r"] + c["toks"]) for c in cases], base, sb)
+            for i in range(6):
+                lm = "lm%d" % rng.randrange(len(mps))
+                if not os.path.islink(os.path.join(sb, lm)):
+                    continue
+                inner = [lm + "/inner", lm + "/inner/deep", lm + "/zdir"]
+                toks, shape, df, tk = gen_expr(rng, inner * 2, [lm + "/f"])
+                toks = toks[:1] + [rng.choice(["-xdev", "-mount"])] + toks[1:]
+                # (-H with a linked starting point in depth-first order is the known finding of this property; use -L there)
+                mode = "L" if df else rng.choice(["H", "L"])
+                cases.append({"id": "xl%d_%d_%d" % (k, t, i), "toks": toks, "files": [], "stratum": shape, "has_plus": False, "df": df, "tk": tk,
+                              "mode": mode, "lead": ["-" + mode], "xdev": True, "roots": [lm]})
+                st.inc("runs_from_a_followed_link_onto_another_file_system")
+            res = common.run_find_inproc([(c["id"], ["find"] + c["lead"] + list(c.get("roots", ["r"])) + c["toks"]) for c in cases], base, sb)
             for c in cases:
                 r = res[c["id"]]
                 if r.special or r.panic:
